@@ -45,7 +45,7 @@ ASSUMPTIONS = [
     'every cell empty (no volume survives), counts as a deck the converter '
     'does not accept',
 ]
-HEADER = ('From Coq Require Import List NArith ZArith Bool String Ascii '
+HEADER = ('From Coq Require Import List NArith ZArith Bool String Ascii Uint63 '
           'PrimFloat.\nFrom T4V Require Import Base.Str C08.Model C08.Exec.\n'
           'Import ListNotations.\nOpen Scope string_scope.\nOpen Scope Z_scope.\n')
 CASE_TYPE = '(bool * Z * Z * wstate payload) * observed * bool'
@@ -235,6 +235,9 @@ def sweep_one(res, deck_text, args, conv, cap, origin):
 
 def run(res, tier, seed, proofs_ok):
     rng = random.Random(seed)
+    for text, ints in cap_mod.PACK_SAMPLES.items():
+        if cap_mod.pack(text) != ints:
+            raise RuntimeError('string packer disagrees with Exec.U_selftest')
     res.rule = ('structure-oriented random decks (2-8 surfaces of 25 kinds '
                 'incl. macrobodies, one-sheet cones, tori under TR, duplicate '
                 'surfaces, user planes px 1 / px -1; free-form cell '
@@ -256,7 +259,7 @@ def run(res, tier, seed, proofs_ok):
                                        else 'passes'))
 
     # ---- 2 + 3. generated decks: sweep and tie on the same runs ----
-    n_decks = 130 if tier == 'quick' else 1500
+    n_decks = 170 if tier == 'quick' else 1500
     cases, meta = [], []
     for i in range(n_decks):
         dk, tags = gen.gen_deck(rng)
